@@ -36,9 +36,11 @@ THEOREMS = [
     'Pyiga.Props.C07.as_nurbs_model', 'Pyiga.Props.C07.nurbs_routes_agree', 'Pyiga.Props.C07.boundary_jacobian_columns', 'Pyiga.Props.C07.outer_model', 'Pyiga.Props.C07.boundary_model', 'Pyiga.Props.C07.translate_nurbs_model',
     'Pyiga.Props.C07.apply_matrix_model', 'Pyiga.Props.C07.scale_nurbs_model',
     'Pyiga.Props.C07.outer_nurbs_model', 'Pyiga.Props.C07.tensor_nurbs_law', 'Pyiga.Props.C07.tensor_nurbs_model',
+    'Pyiga.Props.C07.composed_jet', 'Pyiga.Props.C07.composed_jacobian', 'Pyiga.Props.C07.composed_value_route',
+    'Pyiga.Props.C07.as_vector_nurbs_model', 'Pyiga.Props.C07.getitem_nurbs_model', 'Pyiga.Props.C07.apply_matrix_nurbs_model',
     'Pyiga.Props.C07.copy_boundary_pinned_lose_scalar', 'Pyiga.Props.C07.boundary_pinned_curve_asserts',
 ]
-MODULES = ['Pyiga.Model.Jet', 'Pyiga.Model.Geometry', 'Pyiga.Proofs.Jet', 'Pyiga.Proofs.Geometry', 'Pyiga.Proofs.GeoLists', 'Pyiga.Proofs.Arcs', 'Pyiga.Props.C07']
+MODULES = ['Pyiga.Model.Jet', 'Pyiga.Model.Geometry', 'Pyiga.Proofs.Jet', 'Pyiga.Proofs.Geometry', 'Pyiga.Proofs.GeoLists', 'Pyiga.Proofs.Arcs', 'Pyiga.Proofs.Compose', 'Pyiga.Props.C07']
 
 U = 2.0 ** -52
 
@@ -725,6 +727,66 @@ def run(ctx):
             ctx.case(('mixed', g1.coeffs.tobytes(), g2.coeffs.tobytes()), True)
             ctx.count('outer ops, value shapes %s x %s' % (v1, v2))
             binop_requests(g1, g2, with_tensor=False)
+    # ---- ComposedFunction: grid_eval = geo2's scattered route at XY = geo1.grid_eval(grd) (the implementation's own doubles are
+    # the inputs of the model), grid_jacobian = matmul(jac2, jac1); boundary(bd) = geo2 o geo1.boundary(bd)
+    def unit_kvs(k):
+        return tuple(bspline.make_knots(int(rng.integers(1, 4)), 0.0, 1.0, int(rng.integers(1, 3))) for _ in range(k))
+
+    ncomp = 14 if ctx.tier == 'quick' else 150
+    for _ in range(ncomp):
+        m = int(rng.choice([1, 2, 2, 3]))
+        s1 = int(rng.integers(1, 3 if m == 3 else 4))
+        g1 = rand_func(rng, s1, str(rng.choice(['bsp', 'bsp', 'nurbs'])), (m,), dtype=np.float64)
+        c = g1.coeffs[..., :m] if not is_nurbs(g1) else g1.coeffs_weights()[0]
+        lo, hi = float(c.min()), float(c.max())
+        g1 = g1.translate(-lo).scale(1.0 / max(hi - lo, 1.0))        # image inside the unit cube
+        kv2 = unit_kvs(m)
+        N2 = tuple(kv.numdofs for kv in kv2)
+        d2 = int(rng.integers(1, 4))
+        if rng.integers(0, 3) == 0:
+            g2 = geometry.NurbsFunc(kv2, dyadic(rng, N2 + (d2,)), rng.integers(4, 17, size=N2).astype(float) / 8.0)
+        else:
+            g2 = bspline.BSplineFunc(kv2, dyadic(rng, N2 + (d2,)))
+        comp = geometry.ComposedFunction(g2, g1)
+        ctx.case(('composed', g1.coeffs.tobytes(), g2.coeffs.tobytes()), True)
+        ctx.count('composed functions')
+
+        def comp_requests(comp, inner, grid, tag):
+            XY = np.asarray(inner.grid_eval(grid), dtype=float)
+            P = [XY[..., e].ravel() for e in range(XY.shape[-1])]
+            if any(p.min() < 0.0 or p.max() > 1.0 for p in P):
+                return
+            add('compgeval %s %s %s' % (fmt_func(g2), info_table(g2.kvs, P, 0), plist(XY.shape[:-1])),
+                (lambda: comp.grid_eval(grid)), ('compgeval', g2, inner, grid))
+            add('compgjac %s %s %s %s' % (fmt_func(inner), info_table(inner.kvs, grid, 1), fmt_func(g2), info_table(g2.kvs, P, 1)),
+                (lambda: comp.grid_jacobian(grid)), ('compgjac', g2, inner, grid))
+        grid = tuple(np.array(rand_coord(rng, g1.kvs[i], int(rng.integers(1, 3)))) for i in range(s1))
+        comp_requests(comp, g1, grid, 'comp')
+        if s1 >= 2:
+            bd = (int(rng.integers(0, s1)), int(rng.integers(0, 2)))
+            cb = comp.boundary(bd)
+            inner = g1.boundary(bd)
+            gb = tuple(np.array(rand_coord(rng, inner.kvs[i], int(rng.integers(1, 3)))) for i in range(s1 - 1))
+            comp_requests(cb, inner, gb, 'comp-bd')
+    # ---- more constructors: unit_cube / unit_square / identity / cylinderize / disk
+    for dim in (1, 2, 3):
+        for iv in ((1, 2, 3) if dim < 3 else (1, 2)):
+            S = np.linspace(0.0, 1.0, iv + 1)
+            add('unitcube %d %s' % (dim, plist(S.tolist(), frac)), (lambda dim=dim, iv=iv: geometry.unit_cube(dim=dim, num_intervals=iv)), ('op:unit_cube', dim, iv))
+        ext = [(float(rng.integers(-8, 1)) / 4, float(rng.integers(1, 9)) / 4) for _ in range(dim)]
+        add('identity %s' % plist(ext, lambda e: '%s %s' % (frac(e[0]), frac(e[1]))), (lambda ext=ext: geometry.identity(ext)), ('op:identity', ext))
+    add('unitcube 2 %s' % plist(np.linspace(0.0, 1.0, 3).tolist(), frac), (lambda: geometry.unit_square(2)), ('op:unit_cube', 2, 2))
+    for _ in range(6 if ctx.tier == 'quick' else 60):
+        f = rand_func(rng, int(rng.integers(1, 3)), 'bsp', [(), (1,), (2,)][int(rng.integers(0, 3))])
+        z0, z1 = float(rng.integers(-8, 9)) / 4, float(rng.integers(-8, 9)) / 4
+        add('cylinderize %s %s %s' % (fmt_func(f), frac(z0), frac(z1)),
+            monitored('cylinderize', [f], (lambda f=f, z0=z0, z1=z1: f.cylinderize(z0, z1, support=(0.25, 1.5)))), ('op:cylinderize', f, [z0, z1]))
+    for r in (1.0, 0.75, float(rng.integers(2, 17)) / 4):
+        angs = np.linspace(0, np.pi / 2, 3)
+        cs = [(np.cos(a), np.sin(a)) for a in angs]
+        add('disk %s %s %s %s %s %d' % (plist(cs, lambda p: '%s %s' % (frac(p[0]), frac(p[1]))), frac(np.cos(np.pi / 2 / 2)),
+                                        frac(np.sin(-np.pi / 2)), frac(np.cos(-np.pi / 2)), frac(r), 1 if r != 1.0 else 0),
+            (lambda r=r: geometry.disk(r)), ('op:disk', r))
     # curve constructors
     ncurve = 40 if ctx.tier == 'quick' else 400
     for _ in range(ncurve):
@@ -959,6 +1021,10 @@ def search(ctx, m, why):
                 if d:
                     return d
             return oracle_routes(f, pts, grid)
+        if kind in ('compgeval', 'compgjac'):
+            return oracle_composed(m[1], m[2], m[3])
+        if kind in ('op:unit_cube', 'op:identity', 'op:cylinderize', 'op:disk'):
+            return oracle_constructor(m, np.random.default_rng(54321))
         if kind.startswith('op:'):
             return oracle_operation(m, np.random.default_rng(54321))
         if kind == 'bdspec':
@@ -1406,6 +1472,80 @@ def oracle_checks(ctx, funcs):
             report('geo-oracle:composed', 'ComposedFunction raised %s: %s' % (type(ex).__name__, str(ex)[:200]), describe(('composed', g2, g1, grid)))
     ctx.extra['oracle_cross_checks'] = count
     ctx.count('oracle cross-checks', count)
+
+
+def oracle_composed(g2, g1, grid):
+    """ComposedFunction(g2, g1): values = g2(g1(x)), Jacobian = J2(g1(x)) . J1(x), exactly (Fractions)"""
+    from pyiga import geometry
+    try:
+        comp = geometry.ComposedFunction(g2, g1)
+        n1 = len(g1.kvs)
+        V = comp.grid_eval(grid); J = comp.grid_jacobian(grid)
+        O1, O2 = Oracle(g1), Oracle(g2)
+        for g in np.ndindex(*[len(a) for a in grid]):
+            x = tuple(reversed([float(grid[i][g[i]]) for i in range(n1)]))
+            V1, G1, _ = O1.jet(x, 1)
+            mid = tuple(np.atleast_1d(V1))
+            V2, G2, _ = _exact_jet(O2, mid)
+            J1 = np.stack([np.atleast_1d(np.array(t, dtype=object)) for t in G1], axis=-1)
+            J2 = np.stack([np.array(t, dtype=object) for t in G2], axis=-1)
+            want_J = np.array(J2.dot(J1), dtype=float)
+            sc = 4096.0 * (1 + np.abs(want_J).max())
+            if not close(np.asarray(V[g]).ravel(), np.array(V2, dtype=float).ravel(), sc):
+                return 'ComposedFunction.grid_eval node %s = %s differs from geo2(geo1(x)) = %s' % (g, np.asarray(V[g]).tolist(), np.array(V2, dtype=float).tolist())
+            if not close(np.asarray(J[g]).ravel(), want_J.ravel(), sc):
+                return 'ComposedFunction.grid_jacobian node %s = %s differs from the chain rule J2.J1 = %s' % (g, np.asarray(J[g]).tolist(), want_J.tolist())
+    except Exception as ex:
+        return 'ComposedFunction raised %s: %s' % (type(ex).__name__, str(ex)[:200])
+    return None
+
+
+def oracle_constructor(m, rng):
+    """unit_cube / identity / cylinderize / disk against their documented maps (exact evaluation)"""
+    from pyiga import geometry
+    name = m[0][3:]
+    if name == 'unit_cube':
+        dim, iv = m[1], m[2]
+        G = geometry.unit_cube(dim=dim, num_intervals=iv)
+        for _ in range(4):
+            x = tuple(float(rng.integers(0, 17)) / 16 for _ in range(dim))
+            if not close(Oracle(G).value(x), np.array(x), 8.0):
+                return 'unit_cube(dim=%d, num_intervals=%d)%s = %s is not the identity' % (dim, iv, x, Oracle(G).value(x).tolist())
+    if name == 'identity':
+        ext = m[1]; dim = len(ext)
+        G = geometry.identity(ext)
+        for _ in range(4):
+            t = [float(rng.integers(0, 17)) / 16 for _ in range(dim)]
+            xi = tuple(ext[dim - 1 - e][0] + (ext[dim - 1 - e][1] - ext[dim - 1 - e][0]) * t[e] for e in range(dim))
+            if not close(Oracle(G).value(xi), np.array(xi), 8.0):
+                return 'identity(%s)%s = %s is not the identity' % (ext, xi, Oracle(G).value(xi).tolist())
+    if name == 'cylinderize':
+        f, (z0, z1) = m[1], m[2]
+        supp = (0.25, 1.5)
+        G = f.cylinderize(z0, z1, support=supp)
+        O, OG = Oracle(f), Oracle(G)
+        n = len(f.kvs)
+        for _ in range(3):
+            x = tuple(rand_coord(rng, f.kvs[n - 1 - e], 1)[0] for e in range(n))
+            z = supp[0] + (supp[1] - supp[0]) * float(rng.integers(0, 17)) / 16
+            want = np.concatenate((np.atleast_1d(O.value(x)), [z0 + (z1 - z0) * (z - supp[0]) / (supp[1] - supp[0])]))
+            got = OG.value(x + (z,))
+            if not close(got, want, OG.mag(x + (z,), 0) * 8):
+                return 'cylinderize(%r,%r,support=%r)%s = %s, expected (f(x), linear in z) = %s' % (z0, z1, supp, x + (z,), got.tolist(), want.tolist())
+    if name == 'disk':
+        r = m[1]
+        OD = Oracle(geometry.disk(r))
+        for k in range(9):
+            t = k / 8.0
+            for x in ((t, 0.0), (t, 1.0), (0.0, t), (1.0, t)):
+                V, _, _ = OD.jet(x, 0)
+                dev = abs(V[0] ** 2 + V[1] ** 2 - Fraction(r) ** 2)
+                if dev > Fraction(64 * U) * Fraction(r) ** 2:
+                    return 'disk(%r): boundary point G%s has |G|^2 - r^2 = %.3g' % (r, x, float(dev))
+            V, _, _ = OD.jet((t, 0.5), 0)
+            if V[0] ** 2 + V[1] ** 2 > Fraction(r) ** 2 * (1 + Fraction(64 * U)):
+                return 'disk(%r): interior point G(%r, 0.5) outside the circle' % (r, t)
+    return None
 
 
 def _exact_jet(O, x_frac):
